@@ -428,6 +428,12 @@ func c07Nonce(c *Ctx) {
 			}
 		}
 	})
+	if !okCtr {
+		// counter written with four explicit byte stores
+		if off, ok4 := be32ByteStores(cx, g, g.Params[2]); ok4 && off == wantCtr {
+			okCtr = true
+		}
+	}
 	r.Check(okCtr && okFlag, "C07.nonce", "C07.nonce/generateSegmentNonce/layout", p.FuncPos(g), "nonce is not prefix || be32(counter) at len(prefix) || last flag at len(prefix)+4 (set only when last)", "counter at len(prefix); flag at +4 under last")
 	// callers
 	type want struct {
